@@ -263,6 +263,7 @@ func (m *meter) do(family, op string, f func()) bool {
 	pi := c.Guard(f)
 	c1, a1 := cpuNow(), allocNow()
 	c.Count("operations", 1)
+	c.Seen("operation", opClass(op))
 	if os.Getenv("C04_TIMING") != "" {
 		c.Count("cpu_us/"+opClass(op), int64((c1-c0)*1e6))
 	}
@@ -586,6 +587,29 @@ func exercise(c *runner.Ctx, in []byte, name, desc string, tool, full bool) {
 		runInfoTool(c, m)
 	}
 	c.Count("inputs", 1)
+	kind := "mutant"
+	if full {
+		kind = "seed"
+		if i := strings.Index(name, "#"); i >= 0 {
+			kind = "crafted:" + strings.SplitN(name[i+1:], "-", 2)[0]
+		}
+	}
+	c.Seen("input_kind", kind)
+	for _, d := range strings.Split(desc, "; ") {
+		if full {
+			continue
+		}
+		for _, w := range strings.Fields(d) {
+			if w[0] >= 'a' && w[0] <= 'z' {
+				c.Seen("mutation", w)
+				break
+			}
+		}
+	}
+	c.Seen("accepted_by_n_paths", fmt.Sprint(m.accepted))
+	if len(in) > 0 {
+		c.Seen("input_len_class", lenClass(len(in)))
+	}
 	if m.accepted > 0 {
 		c.Count("inputs_accepted_by_some_path", 1)
 	}
@@ -595,6 +619,22 @@ func exercise(c *runner.Ctx, in []byte, name, desc string, tool, full bool) {
 	if c.WantSample() && c.Idx >= nAll {
 		c.Sample(map[string]interface{}{"seed": name, "mutation": desc, "len": len(in), "accepted_by_paths": m.accepted, "first_bytes_hex": fmt.Sprintf("%x", in[:minInt(len(in), 48)])})
 	}
+}
+
+func lenClass(n int) string {
+	switch {
+	case n < 16:
+		return "<16"
+	case n < 64:
+		return "16-63"
+	case n < 1024:
+		return "64-1023"
+	case n < 16<<10:
+		return "1K-16K"
+	case n < 64<<10:
+		return "16K-64K"
+	}
+	return ">=64K"
 }
 
 func minInt(a, b int) int {
